@@ -107,7 +107,7 @@ def main():
         "engines": [{
             "name": "lean4-proof+correspondence", "path": "/verif/lean",
             "serves_properties": sorted(CLAIMED),
-            "kind_free_text": "Lean 4 theorems about a hand-written executable model of nodis (lake project, core-only model, compiled driver); the model is tied to /repo on every run by differential execution against the real code through a Go harness (build tag verif) and, for table-shaped facts, by a go/ast extractor that regenerates Lean definitions",
+            "kind_free_text": "Lean 4 theorems about a hand-written executable model of nodis (lake project, core-only model, compiled driver); the model is tied to /repo on every run by differential execution against the real code through a Go harness (build tag verif); protocol models (locking, blocking pops) are tied by replaying the step traces the real code reports through its verifTrace hook; the change feed and crash recovery additionally by closed-loop oracles on the implementation alone",
         }],
         "checks": checks,
         "not_applicable": na,
